@@ -20,7 +20,7 @@ def obligations(tier):
 META = dict(
     level="model_checking",
     bounds={"quick": "every accepted skeleton (<= 3 heads + variety + special shapes) followed by 1 and by 3 fully symbolic suffix bytes (garbage, breaks, reserved bytes, further items are all inside that)",
-            "thorough": "<= 4 heads, suffix lengths 1..4"},
+            "thorough": "<= 4 heads (all of S(3), every accepted 4-head sequence, every 4th rejected and every 16th still-open 4-head sequence), suffix lengths 1..4"},
     assumptions=["C08 clause 'FINISHED does not depend on bytes beyond read' (all buffers) backs longer suffixes", "functional obligation: pointer checks off (C01 decides them)"],
     outside=["suffixes longer than 4 bytes other than through the C08 lemma"],
     explanation="x||y with y symbolic in an exact-size block; read and tree must equal those the reference computes for x alone. The sequence-splitting clause follows by induction on offset += read.",
